@@ -61,6 +61,8 @@ NoMatchSimple == {<<58,97,99,116,105,118,101>>, <<58,99,117,114,114,101,110,116>
     <<58,112,97,115,116>>, <<58,112,97,117,115,101,100>>, <<58,112,108,97,121,105,110,103>>, <<58,116,97,114,103,101,116>>, <<58,116,97,114,103,101,116,45,119,105,116,104,105,110>>,
     <<58,117,115,101,114,45,105,110,118,97,108,105,100>>, <<58,118,105,115,105,116,101,100>>}          \* PSEUDO_SIMPLE_NO_MATCH
 NoMatchComplex == {<<58,99,117,114,114,101,110,116>>, <<58,104,111,115,116>>, <<58,104,111,115,116,45,99,111,110,116,101,120,116>>}    \* PSEUDO_COMPLEX_NO_MATCH
+\* the pseudo-classes the parser defines by a selector text of its own (CSS_LINK, CSS_CHECKED, ...) or by a flag: [k |-> "state", name |-> ":checked"]
+StateNames == {<<58,108,105,110,107>>, <<58,97,110,121,45,108,105,110,107>>, <<58,99,104,101,99,107,101,100>>, <<58,100,101,102,97,117,108,116>>, <<58,105,110,100,101,116,101,114,109,105,110,97,116,101>>, <<58,100,105,115,97,98,108,101,100>>, <<58,101,110,97,98,108,101,100>>, <<58,114,101,113,117,105,114,101,100>>, <<58,111,112,116,105,111,110,97,108>>, <<58,112,108,97,99,101,104,111,108,100,101,114,45,115,104,111,119,110>>, <<58,114,101,97,100,45,111,110,108,121>>, <<58,114,101,97,100,45,119,114,105,116,101>>, <<58,105,110,45,114,97,110,103,101>>, <<58,111,117,116,45,111,102,45,114,97,110,103,101>>, <<58,100,101,102,105,110,101,100>>}
 KwRoot == <<58,114,111,111,116>>
 KwEmpty == <<58,101,109,112,116,121>>
 KwScope == <<58,115,99,111,112,101>>
@@ -80,7 +82,7 @@ KwNthLastChild == <<58,110,116,104,45,108,97,115,116,45,99,104,105,108,100>>
 KwNthType == <<58,110,116,104,45,111,102,45,116,121,112,101>>
 SimpleOf(nm) == CASE nm = KwRoot -> "root" [] nm = KwEmpty -> "empty" [] nm = KwScope -> "scope" [] nm = KwFC -> "first-child"
                   [] nm = KwLC -> "last-child" [] nm = KwOC -> "only-child" [] nm = KwFT -> "first-of-type" [] nm = KwLT -> "last-of-type"
-                  [] nm = KwOT -> "only-of-type" [] nm \in NoMatchSimple -> "none" [] OTHER -> "unsupported"
+                  [] nm = KwOT -> "only-of-type" [] nm \in NoMatchSimple -> "none" [] nm \in StateNames -> "state" [] OTHER -> "unsupported"
 FnOf(nm) == CASE nm = KwNot -> "not" [] nm = KwIs -> "is" [] nm = KwWhere -> "where" [] nm = KwMatches -> "matches" [] nm = KwHas -> "has"
               [] nm \in NoMatchComplex -> "nomatch" [] OTHER -> "unsupported"
 
@@ -114,7 +116,7 @@ PCompound(s, T, i) ==
             ELSE IF k = "pseudo_class"
                  THEN LET e == PseudoName(s, T[j].a)
                           nm == NameText(s, T[j].a, e)
-                      IN IF Ch(s, e) # 40 THEN Go(j + 1, Append(acc, [k |-> SimpleOf(nm)]))
+                      IN IF Ch(s, e) # 40 THEN Go(j + 1, Append(acc, IF SimpleOf(nm) = "state" THEN [k |-> "state", name |-> nm] ELSE [k |-> SimpleOf(nm)]))
                          ELSE LET fn == FnOf(nm)
                                   sub == PList(s, T, j + 1, fn = "has", fn \in {"is", "where"})
                               IN IF fn = "nomatch" THEN Go(sub.n + 1, Append(acc, [k |-> "none"]))
